@@ -18,6 +18,11 @@ PROPS_PART = {
         kani=[dict(harness='bnd_from_iter_bitwise_first_of_class', module='rdata_eq', kind='bounded',
                    bound='2 RDATA of 1 octet, type A (octet-wise)', tier='thorough',
                    what='generic RdataSetOwned::from_iter + Iter on the real crate: first of each class, in order, nothing else')],
+        native=[dict(bin='bnd_rdata_set', when='quick',
+                     bound='19 (class,type) targets (NS MD MF CNAME MB MG MR PTR, NS in CH, MX, SOA, MINFO, SRV in IN, A in CH; octet-wise: A in IN, TXT, AAAA, TYPE65280, TYPE257 in CH) x universes of 15-20 short RDATA strings '
+                           '(names in both letter cases, + trailing junk, cut short, empty, compression pointer, root, non-letters 0x20 apart, differing fixed fields): all pairs, all triples, all member sequences of length <= 4',
+                     what='real Rdata::equals == reference (octet-wise; embedded names ASCII-case-insensitively iff BOTH RDATA are well formed for the type layout) on every pair; reflexive/symmetric/transitive on the universe; '
+                          'RdataSetOwned::from_iter and From<&Rdata>+insert keep, in insertion order, exactly the first member of each class; insert returns whether new; from_iter of nothing is None')],
         cex={'rdata_eq.names_equal': [('rdata_eq', 'cex_equals_ns_symmetric')]},   # slow: ~540 s to the counterexample, >600 s when there is none
         unverified=['RdataSetOwned::from_iter for iterator types other than Vec<&Rdata> (body is parametric; arbitrary iterators may not terminate)',
                     'bodies of the unsafe casts Rdata::from_unchecked and <RdataSetOwned as Deref>::deref',
